@@ -20,7 +20,11 @@
 
 package executor
 
-import core "github.com/noble-assets/orbiter/v2/types/core"
+import (
+	"fmt"
+
+	core "github.com/noble-assets/orbiter/v2/types/core"
+)
 
 // DefaultGenesisState returns the default values for the adapter
 // component initial state.
@@ -36,10 +40,16 @@ func (g *GenesisState) Validate() error {
 		return core.ErrNilPointer.Wrap("executor genesis state")
 	}
 
+	seenActionIDs := make(map[core.ActionID]struct{}, len(g.PausedActionIds))
 	for _, id := range g.PausedActionIds {
 		if err := id.Validate(); err != nil {
 			return err
 		}
+
+		if _, found := seenActionIDs[id]; found {
+			return fmt.Errorf("duplicated paused action ID %s", id)
+		}
+		seenActionIDs[id] = struct{}{}
 	}
 
 	return nil
